@@ -21,6 +21,10 @@ pub fn meta(m: &mut PropMeta) {
 pub const N_POSITIONS: usize = 9;
 
 /// The universe every documented element lives in; the element at `pos` carries `lines`.
+fn files_of(p: &Program, layout: &Layout) -> Vec<String> {
+    render_program(p, layout).into_iter().map(|r| r.text).collect()
+}
+
 pub fn place_doc(pos: usize, lines: &[String], sibling_doc: bool) -> Program {
     let d = |c: MCommon| -> MCommon {
         let mut c = c;
@@ -266,7 +270,9 @@ impl Family for Overviews {
         (1..=self.max_lines as u32).map(|n| a.pow(n)).sum()
     }
     fn describe(&self, idx: u64) -> Value {
-        json!({"comment_lines": self.lines(idx), "position": idx % 9})
+        let p = place_doc((idx % 9) as usize, &self.lines(idx), idx % 2 == 0);
+        let layout = Layout::uniform(if idx % 3 == 0 { Sep::Newline } else { Sep::Space }, Commas::None);
+        json!({"comment_lines": self.lines(idx), "position": idx % 9, "files": files_of(&p, &layout)})
     }
     fn run(&self, idx: u64) -> CaseOut {
         let lines = self.lines(idx);
@@ -347,7 +353,8 @@ impl Family for Tags {
         (self.forms.len() * TAG_POSITIONS.len()) as u64
     }
     fn describe(&self, idx: u64) -> Value {
-        json!({"comment_lines": self.forms[(idx / 11) as usize], "position": idx % 11})
+        let p = place_doc(TAG_POSITIONS[(idx % 11) as usize], &self.forms[(idx / 11) as usize], idx % 2 == 1);
+        json!({"comment_lines": self.forms[(idx / 11) as usize], "position": idx % 11, "files": files_of(&p, &Layout::uniform(Sep::Space, Commas::None))})
     }
     fn run(&self, idx: u64) -> CaseOut {
         let lines = &self.forms[(idx / 11) as usize];
@@ -404,7 +411,8 @@ impl Family for TagLayouts {
         self.forms.len() as u64 * 2
     }
     fn describe(&self, idx: u64) -> Value {
-        json!({"comment_lines": self.forms[(idx / 2) as usize], "position": Self::pos(idx)})
+        let p = place_doc(Self::pos(idx), &self.forms[(idx / 2) as usize], idx % 4 == 1);
+        json!({"comment_lines": self.forms[(idx / 2) as usize], "position": Self::pos(idx), "files": files_of(&p, &Layout::uniform(Sep::Space, Commas::None))})
     }
     fn run(&self, idx: u64) -> CaseOut {
         let lines = &self.forms[(idx / 2) as usize];
@@ -446,7 +454,13 @@ impl Family for LinkTargets {
     }
     fn describe(&self, idx: u64) -> Value {
         let (t, pos, how) = Self::decode(idx);
-        json!({"target": t, "position": pos, "how": how})
+        let lines: Vec<String> = match how {
+            0 => vec![format!(" See {{@link {t}}} for more.")],
+            1 => vec![" Overview.".into(), format!(" @see {t}")],
+            _ => vec![format!(" @param a: uses {{@link {t}}}")],
+        };
+        let p = place_doc(pos, &lines, false);
+        json!({"target": t, "position": pos, "how": how, "files": files_of(&p, &Layout::uniform(Sep::Space, Commas::None))})
     }
     fn run(&self, idx: u64) -> CaseOut {
         let (t, pos, how) = Self::decode(idx);
@@ -503,7 +517,9 @@ impl Family for Malformed {
         BAD.len() as u64 * 11 * 2
     }
     fn describe(&self, idx: u64) -> Value {
-        json!({"comment_lines": BAD[(idx / 22) as usize], "position": (idx / 2) % 11, "healthy_siblings": idx % 2 == 1})
+        let lines: Vec<String> = BAD[(idx / 22) as usize].iter().map(|s| s.to_string()).collect();
+        let p = place_doc(((idx / 2) % 11) as usize, &lines, idx % 2 == 1);
+        json!({"comment_lines": BAD[(idx / 22) as usize], "position": (idx / 2) % 11, "healthy_siblings": idx % 2 == 1, "files": files_of(&p, &Layout::uniform(Sep::Space, Commas::None))})
     }
     fn run(&self, idx: u64) -> CaseOut {
         let lines: Vec<String> = BAD[(idx / 22) as usize].iter().map(|s| s.to_string()).collect();
